@@ -61,7 +61,8 @@ def run_check(mod, tier, *, streams=None, runs=None, budget_s=None):
     # violations: minimise one per target class, write + confirm replay
     reported = []
     by_class: dict = {}
-    for v in sorted(total.violations, key=lambda x: (x["stream"], x["run"])):
+    for v in sorted(total.violations,
+                    key=lambda x: (str(x["stream"]), str(x["run"]))):
         by_class.setdefault(v["classes"][0], v)
     for target, v in sorted(by_class.items())[:3]:
         case, dec = v["case"], v["decisions"]
